@@ -100,6 +100,10 @@ type Config struct {
 	// the code under test, as when a Go program's main returns) instead of a
 	// deadlock.
 	DaemonsOK bool
+	// StallDen, when >0, makes one yield in StallDen a stall: simulated time
+	// advances by a tape-chosen 1 ns .. 10 ms while the task stands still
+	// (Sim.Stalled accumulates it, so that time bounds can allow for it).
+	StallDen int
 	// PathNames names tasks by spawn path ("0", "0.0", "0.1", "0.0.0", ...).
 	PathNames bool
 	// TraceSync records synchronisation events (fork, acquire, release,
@@ -126,6 +130,8 @@ type Sim struct {
 
 	Seq          int64 // global event sequence number
 	Now          int64 // simulated time, ns
+	Stalled      int64 // simulated time injected by stalls (Config.StallDen)
+	minor        bool  // set by the yield handler: the request just handled was a plain yield
 	hash         uint64
 	log          []string
 	outcome      Outcome
@@ -325,6 +331,9 @@ func (s *Sim) loop() {
 		s.running = t
 		if t.pending {
 			st := t.h(s, t, t.req)
+			if s.Tape != nil {
+				s.Tape.major = true
+			}
 			if st == Block {
 				// Ready lied; treat as still blocked.
 				continue
@@ -352,7 +361,11 @@ func (s *Sim) handle(t *Task) {
 		}
 		return
 	}
+	s.minor = false
 	st := t.h(s, t, t.req)
+	if s.Tape != nil {
+		s.Tape.major = !s.minor // a plain yield is a minor point, everything else (sync, go, I/O) a major one
+	}
 	if st == Block {
 		t.pending = true
 		return
